@@ -7,11 +7,17 @@ cd "$HERE" || exit 1
 if [ -f harness/translate_driver.py ]; then
   /venv/bin/python harness/translate_driver.py >/dev/null 2>&1 || python3 harness/translate_driver.py >/dev/null 2>&1 || echo "translator failed (C18 will report it)"
 fi
+if [ -f harness/translate_pure.py ]; then
+  /venv/bin/python harness/translate_pure.py --quiet >/dev/null 2>&1 || python3 harness/translate_pure.py --quiet >/dev/null 2>&1 || echo "translate_pure refused (C02/C20 will report it)"
+fi
 cd lean || exit 1
-if lake build >/tmp/pgverif_setup.log 2>&1; then echo "lake build ok"; exit 0; fi
-tail -5 /tmp/pgverif_setup.log
+LOG="$(mktemp)"
+# the root lists the models, lemma files and the Props files that need no generated module; the others (…Extra, …Gen, …Driver,
+# …Traces, C18) are built one by one below so that each check finds its target compiled
+if lake build >"$LOG" 2>&1; then echo "lake build ok"; else tail -5 "$LOG"; fi
+rm -f "$LOG"
 for f in PygyroVerif/Props/C*.lean; do
   m="PygyroVerif.Props.$(basename "$f" .lean)"
-  lake build "$m" >/dev/null 2>&1 && echo "built $m" || echo "FAILED $m"
+  lake build "$m" >/dev/null 2>&1 || echo "FAILED $m"
 done
 exit 0
